@@ -6,6 +6,7 @@ import (
 	"fmt"
 	"os"
 	"os/exec"
+	"sync/atomic"
 	"syscall"
 	"time"
 )
@@ -138,6 +139,8 @@ func (p Proc) Run() ProcResult {
 	return res
 }
 
+var childSeq atomic.Int64
+
 // RunChild runs this binary's (or bin's) child sub-command and merges its dump.
 // A child that dies without a dump is reported through the returned result.
 func (r *Run) RunChild(bin, name string, timeout time.Duration, args ...string) (ProcResult, error) {
@@ -147,7 +150,9 @@ func (r *Run) RunChild(bin, name string, timeout time.Duration, args ...string) 
 			bin, _ = os.Executable()
 		}
 	}
-	dump := fmt.Sprintf("%s/child-%s-%d.json", r.Work, name, time.Now().UnixNano())
+	// unique per call: children of one name are started in parallel, and the clock's
+	// granularity is not fine enough to tell them apart
+	dump := fmt.Sprintf("%s/child-%s-%d-%d.json", r.Work, name, time.Now().UnixNano(), childSeq.Add(1))
 	a := append([]string{"--child=" + name, dump, r.Prop, r.Tier, fmt.Sprint(r.Seed)}, args...)
 	res := Proc{Path: bin, Args: a, Timeout: timeout}.Run()
 	if _, err := os.Stat(dump); err != nil {
